@@ -2,12 +2,12 @@
    with orthonormal axes: for isotropic materials the moved problem uses the same C. *)
 From Coq Require Import Reals List Lra Psatz Nsatz.
 From EFLib Require Import C11_MatR.
-From EFP Require Import Gen_Pmat Gen_Laws C11_pmat.
+From EFP Require Import Gen_Pmat Gen_Laws.
 Import ListNotations.
 Open Scope R_scope.
 
 Theorem iso_C_rotation_invariant : forall a1 a2 a3 b1 b2 b3 r2 E v, r2 * r2 = 2 ->
-  unit_orth3 a1 a2 a3 b1 b2 b3 ->
+  a1 * a1 + a2 * a2 + a3 * a3 = 1 /\ b1 * b1 + b2 * b2 + b3 * b3 = 1 /\ a1 * b1 + a2 * b2 + a3 * b3 = 0 ->
   apply_pmat_global 6 (pmat3 a1 a2 a3 b1 b2 b3 1 1 r2) (iso_3d_C r2 E v) = iso_3d_C r2 E v.
 Proof.
   intros * Hr (Ha & Hb & Hab).
